@@ -68,6 +68,7 @@ func (a *Analysis) EntryEffects(fn *ssa.Function, bind map[int]int32) []*Effect 
 
 // Effects returns the raw summary effects of a function (targets may be symbolic).
 func (a *Analysis) Effects(fn *ssa.Function) []*Effect {
+	fn = a.orig(fn)
 	st := a.fs[fn]
 	if st == nil {
 		return nil
@@ -89,7 +90,10 @@ func (a *Analysis) Effects(fn *ssa.Function) []*Effect {
 }
 
 // Analysed reports whether fn has a summary.
-func (a *Analysis) Analysed(fn *ssa.Function) bool { st := a.fs[fn]; return st != nil && st.analysed }
+func (a *Analysis) Analysed(fn *ssa.Function) bool {
+	st := a.fs[a.orig(fn)]
+	return st != nil && st.analysed
+}
 
 // Chain renders the call chain through which an effect reaches the function that owns it.
 func (a *Analysis) Chain(e *Effect) []string {
@@ -163,6 +167,7 @@ func (a *Analysis) UnknownDynamicCalls() int { return a.unknownDyn }
 
 // DeferredCalls returns how many calls through function-valued parameters the summary keeps symbolic.
 func (a *Analysis) DeferredCalls(fn *ssa.Function) int {
+	fn = a.orig(fn)
 	st := a.fs[fn]
 	if st == nil {
 		return 0
@@ -175,6 +180,7 @@ func (a *Analysis) DeferredCalls(fn *ssa.Function) int {
 // through function-valued parameters are included context-insensitively (all callees that the
 // call graph knows for the deferred call sites), which is what a loop inside fn has to assume.
 func (a *Analysis) ParamMods(fn *ssa.Function, param int, closed bool) map[string]*Effect {
+	fn = a.orig(fn)
 	out := map[string]*Effect{}
 	a.paramMods(fn, param, closed, map[string]bool{}, out)
 	return out
@@ -237,6 +243,7 @@ func (a *Analysis) Overlap(x, y ssa.Value) bool {
 // FieldWrites returns the struct fields (of objects not created by fn itself) that fn or its
 // callees may write: "pkg.Type.field" -> witness.
 func (a *Analysis) FieldWrites(fn *ssa.Function) map[string]*Effect {
+	fn = a.orig(fn)
 	out := map[string]*Effect{}
 	st := a.fs[fn]
 	if st == nil {
@@ -252,6 +259,7 @@ func (a *Analysis) FieldWrites(fn *ssa.Function) map[string]*Effect {
 
 // TrackedMods returns the effects of fn on tracked regions, parameters and package-level state.
 func (a *Analysis) TrackedMods(fn *ssa.Function) []*Effect {
+	fn = a.orig(fn)
 	var out []*Effect
 	for _, e := range a.Effects(fn) {
 		if e.Kind == "mod" || e.Kind == "ptrwrite" || e.Kind == "contwrite" {
@@ -259,4 +267,12 @@ func (a *Analysis) TrackedMods(fn *ssa.Function) []*Effect {
 		}
 	}
 	return out
+}
+
+// orig maps an inlined clone (core.Program.Inlined) back to the function the analysis knows.
+func (a *Analysis) orig(fn *ssa.Function) *ssa.Function {
+	if a.P != nil {
+		return a.P.Original(fn)
+	}
+	return fn
 }
